@@ -1,8 +1,11 @@
 (* C05 -- `position ... moves`: statements about the model of uci/moves.rs and uci/position.rs (Uci.v).
-   PARTIAL: that find_move coincides with the specification's `denotes` (spec/UciSpec.v) is checked by the
-   correspondence run, not proved. *)
+   PARTIAL: proved relative to the engine's own list of generated moves -- a token is resolved to a move iff that move
+   is generated and prints as the token (the printed string being the specification's notation, C09), or the token is
+   a conventional castling string for the mover and the e-file king-takes-rook move is generated.  That the generated
+   list is the rules' list of legal moves (so that find_move = `denotes` of spec/UciSpec.v) is C01's open half and is
+   checked by the correspondence run. *)
 From Coq Require Import NArith ZArith List Bool String.
-From Rawr Require Import Consts Bits Magic Position MoveGen MakeMove Fen Eval TT Search Uci UciFacts.
+From Rawr Require Import Consts Bits Magic Position MoveGen MakeMove MakeStages Fen Eval TT Search Uci UciFacts NotationMoves.
 Import ListNotations.
 Local Open Scope N_scope.
 
@@ -21,6 +24,22 @@ Proof. exact unknown_token_is_noop. Qed.
 Theorem C05_only_legal_moves_are_played : forall p t m, find_move p t = Some m -> In m (legal_moves p).
 Proof. exact find_move_legal. Qed.
 
+(* what the matcher accepts: either a generated move that prints as the token, or the conventional castling string of
+   the mover's side resolved to the generated king-takes-rook move from the e-file; nothing else *)
+Theorem C05_matcher_sound : forall p t m, find_move p t = Some m ->
+  (In m (legal_moves p) /\ to_uci p m = t) \/ conventional p t m.
+Proof. exact find_move_sound. Qed.
+Theorem C05_matcher_rejects_everything_else : forall p t,
+  (forall m, In m (legal_moves p) -> to_uci p m <> t) -> (forall m, ~ conventional p t m) -> find_move p t = None.
+Proof. exact find_move_none. Qed.
+(* and it accepts every generated move under its own printed name, resolving it to that very move *)
+Theorem C05_matcher_complete : forall p, good_pos_b p = true -> std_geo p ->
+  forall m, In m (legal_moves p) -> find_move p (to_uci p m) = Some m.
+Proof. intros p H SG. exact (proj2 (proj2 (good_pos_notation p H SG))). Qed.
+
 Print Assumptions C05_moves_history.
 Print Assumptions C05_unknown_token_is_noop.
 Print Assumptions C05_only_legal_moves_are_played.
+Print Assumptions C05_matcher_sound.
+Print Assumptions C05_matcher_rejects_everything_else.
+Print Assumptions C05_matcher_complete.
